@@ -305,7 +305,6 @@ func NewDir(tag string) string {
 func (w *World) Reindex(overwrite bool, onHeader func(*config.Header)) error {
 	rd, err := w.Backend.GetReader()
 	if err != nil {
-		_ = w.Backend.CloseReader()
 		return err
 	}
 	defer w.Backend.CloseReader()
@@ -325,7 +324,6 @@ func (w *World) Reindex(overwrite bool, onHeader func(*config.Header)) error {
 func (w *World) QueryTape(onHeader func(*config.Header)) ([]*tar.Header, error) {
 	rd, err := w.Backend.GetReader()
 	if err != nil {
-		_ = w.Backend.CloseReader()
 		return nil, err
 	}
 	defer w.Backend.CloseReader()
